@@ -36,6 +36,14 @@ def check(run, prog, tier):
     run.trusted_base = ["qv/ta_front.py model of numpy.dot/tensordot/transpose/conj",
                         "scipy UnivariateSpline.antiderivative()(tm) returns the running integral "
                         "whose last element is the full integral"]
+    run.rule("C07-M", "operator form and tensor form of one tensor agree 'in every basis': the operator components a tensor transforms in place when the basis changes are its own arrays - "
+                      "an array of the system-bath interaction (or of any argument) kept without a copy would be transformed once per "
+                      "object built from it (stored-input analysis shared with C15-E3, restricted to the tensors that have an "
+                      "operator form)", minimum=2)
+    from . import c15 as _c15
+    from ..report import RuleProxy as _RP
+    _opf = ("RedfieldRelaxationTensor", "TDRedfieldRelaxationTensor", "LindbladForm", "ElectronicLindbladForm")
+    _c15.stored_inputs_intact(_RP(run, "C07-M", keep=lambda c, k: c.split(".")[0] in _opf), "C07-M", prog, _c15.TENSORS)
     run.rule("C07-A", "tensor action equals operator action (TA)", minimum=4)
     run.rule("C07-B", "conversion between forms is typestate-correct", minimum=5)
     run.rule("C07-C", "both forms transform by the same covariant law", minimum=8)
